@@ -192,6 +192,20 @@ theorem every_increment_needed :
 /-- … and so do removing the `gen_bottom` cut of `gen_new` and switching the leaf rule off -/
 theorem cut_needed : SkeletonOK (dropCut Generated.skeleton) = false := by decide
 
+/-- the table one reads when the guard of the cut exempts `x` (e.g. all built-in types) instead of the primitive
+    types of the argument -/
+def widenExemption (x : String) (sk : Skeleton) : Skeleton :=
+  { sk with gens := sk.gens.map fun g =>
+      { g with sites := g.sites.map fun s => if s.cut.isSome then { s with cutExempt := [x] } else s } }
+
+/-- … and so does changing the CONDITION of the cut: exempting every built-in type (arrays and function types
+    are built-ins whose values are generated recursively), or guarding the cut by anything that is not
+    "the argument type is primitive" -/
+theorem cut_condition_needed :
+    SkeletonOK (widenExemption "tu.is_builtin(expr_type, self.bt_factory)" Generated.skeleton) = false ∧
+    SkeletonOK (widenExemption "?:utils.random.bool()" Generated.skeleton) = false ∧
+    SkeletonOK (widenExemption "expr_type.is_primitive()" Generated.skeleton) = true := by decide
+
 theorem leaf_rule_needed : SkeletonOK (dropLeafRule Generated.skeleton) = false := by decide
 
 example : (raisedPaths Generated.skeleton).length = 11 := by decide
